@@ -19,6 +19,36 @@ fn main() {
         } }
         return;
     }
+    if args.len() >= 2 && args[1] == "findzuc" {
+        // one-off helper (results are committed as constants in suites/zuc.rs and RE-CLASSIFIED by the specification on every run): (key, IV) pairs for
+        // which some round within the first 2000 keystream words starts with R1 = 0 or R2 = 0 (2^-32 per round each).  The library with its
+        // gm_rs_verif state accessor is used as the search predicate only.
+        let found = std::sync::Arc::new(std::sync::Mutex::new(Vec::<String>::new()));
+        let mut hs = vec![];
+        for th in 0..16u64 {
+            let found = found.clone();
+            hs.push(std::thread::spawn(move || {
+                let mut rng = gen::Rng(0x2c0000 + th);
+                loop {
+                    if found.lock().unwrap().len() >= 6 { return; }
+                    let (key, iv) = (rng.bytes(16), rng.bytes(16));
+                    let mut z = gm_zuc::ZUC::new(&key, &iv);
+                    for step in 0..2000u32 {
+                        let (_, r1, r2) = z.verif_state();
+                        if r1 == 0 || r2 == 0 {
+                            let mut f = found.lock().unwrap();
+                            f.push(format!("(\"{}\", \"{}\", {}, \"{}\")", hex::encode(&key), hex::encode(&iv), step, if r2 == 0 { "r2" } else { "r1" }));
+                            eprintln!("{}", f.last().unwrap());
+                        }
+                        let _ = z.generate_keystream(1);
+                    }
+                }
+            }));
+        }
+        for h in hs { let _ = h.join(); }
+        for l in found.lock().unwrap().iter() { println!("{}", l); }
+        return;
+    }
     if args.len() >= 2 && args[1] == "findsm3" {
         // one-off helper (results are committed as constants in suites/sm3.rs and RE-CLASSIFIED by the specification on every run): 64-byte first
         // blocks for which, at the start of some round j >= 16 of the first compression, two of the registers fed to FF (A, B, C) or to GG (E, F, G)
